@@ -25,11 +25,17 @@ struct Pre {
 }
 
 fn any_frame() -> (Frame, Pre) {
-    any_frame_with(None)
+    any_frame_with(None, None)
 }
 
-// `fixed_nlocals`: a concrete number of locals (keeps Vec lengths concrete for symbolic execution)
-fn any_frame_with(fixed_nlocals: Option<usize>) -> (Frame, Pre) {
+// `fixed_nlocals` / `fixed_kinds`: concrete number and states of the locals. Heap shapes must be concrete for CBMC:
+// with symbolic states the length of a Reserved entry's deferred-op list is read from symbolic memory and every
+// Vec operation forks into its reallocation path (out of memory at 30 GB); ids, bases and counters stay symbolic.
+fn any_frame_with(fixed_nlocals: Option<usize>, fixed_kinds: Option<[u8; 3]>) -> (Frame, Pre) {
+    any_frame_full(fixed_nlocals, fixed_kinds, None)
+}
+
+fn any_frame_full(fixed_nlocals: Option<usize>, fixed_kinds: Option<[u8; 3]>, fixed_ids: Option<[u32; 3]>) -> (Frame, Pre) {
     let tb: u8 = kani::any();
     let count: u8 = kani::any();
     let used: u8 = kani::any();
@@ -46,8 +52,14 @@ fn any_frame_with(fixed_nlocals: Option<usize>) -> (Frame, Pre) {
     local_registers.push(LocalRegister::Allocated);
     let mut i = 0;
     while i < 3 {
-        let k: u8 = kani::any();
-        let id: u32 = kani::any();
+        let k: u8 = match fixed_kinds {
+            Some(ks) => ks[i],
+            None => kani::any(),
+        };
+        let id: u32 = match fixed_ids {
+            Some(x) => x[i],
+            None => kani::any(),
+        };
         kani::assume(k < 3 && id < 5);
         kinds[i] = k;
         ids[i] = id;
@@ -110,7 +122,7 @@ fn invariant(f: &Frame) -> bool {
 #[kani::unwind(6)]
 #[kani::stub(std::hash::RandomState::new, stub_random_state)]
 fn c05_frame_temporaries() {
-    let (mut f, pre) = any_frame();
+    let (mut f, pre) = any_frame_with(Some(2), Some([0, 1, 2]));
     assert!(invariant(&f), "C05.frame: the generated pre-state satisfies the invariant");
     let next = f.next_temporary_register();
     assert!(next as u32 == pre.tb as u32 + pre.count as u32, "C05.frame: next_temporary_register is tb + count");
@@ -164,7 +176,7 @@ fn c05_frame_temporaries() {
 #[kani::unwind(6)]
 #[kani::stub(std::hash::RandomState::new, stub_random_state)]
 fn c05_frame_truncate() {
-    let (mut f, pre) = any_frame();
+    let (mut f, pre) = any_frame_with(Some(2), Some([0, 1, 2]));
     let k: usize = kani::any();
     kani::assume(k <= pre.count as usize + 1);
     match f.truncate_register_stack(k) {
@@ -192,93 +204,17 @@ fn owner_count(f: &Frame, id: u32) -> usize {
     n
 }
 
-// @props C05 C06
-// @fns Frame::assign_local_register, Frame::reserve_local_register, Frame::commit_local_register, Frame::get_local_assigned_register, Frame::get_local_assigned_or_reserved_register
-// @timeout 1500
-// @bound one operation from an arbitrary frame: self + 0, 1, 2 or 3 locals (concrete count per block) in any state (Assigned / Reserved / Allocated) with ids from {0..4}, temporary_base over all of u8, id argument from {0..4}
-// @kani --no-memory-safety-checks --no-assertion-reach-checks
-// @mem 10
-#[kani::proof]
-#[kani::unwind(7)]
-#[kani::stub(std::hash::RandomState::new, stub_random_state)]
-fn c05_frame_locals() {
-    frame_locals_case(0);
-    frame_locals_case(1);
-    frame_locals_case(2);
-    frame_locals_case(3);
-}
+// DROPPED (DESIGN §10.3): one-step harnesses for assign_local_register / reserve_local_register / commit_local_register.
+// Three shapes were tried (symbolic local states; concrete states with symbolic ids; everything concrete except the
+// bases and counters, down to three blocks): each ran out of memory at 24-30 GB. CBMC's symbolic execution does not
+// propagate constants through the heap buffer of `local_registers`, so every arm of the `LocalRegister` match is
+// explored whatever the state, including `deferred_ops.to_vec()` and its drop, whose loops over `Vec<DeferredOp>`
+// (each element owning a `Vec<u8>`) are unrolled with symbolic lengths. The local-register limit is still covered
+// from the other side by c05_frame_new (locals + captures + placeholders never exceed 255 without an error).
 
-fn frame_locals_case(nlocals: usize) {
-    let (mut f, pre) = any_frame_with(Some(nlocals));
-    let id: u32 = kani::any();
-    kani::assume(id < 5);
-    // where does `id` live before the call?
-    let mut at: Option<(usize, u8)> = None;
-    let mut i = 0;
-    while i < 3 {
-        if i < pre.nlocals && pre.kinds[i] != 2 && pre.ids[i] == id {
-            at = Some((i + 1, pre.kinds[i]));
-        }
-        i += 1;
-    }
-    let len0 = 1 + pre.nlocals;
-    assert!(f.get_local_assigned_register(cid(id)) == match at { Some((r, 0)) => Some(r as u8), _ => None }, "C05.frame: lookup of an assigned local");
-    let op: u8 = kani::any();
-    kani::assume(op < 3);
-    match op {
-        0 | 1 => {
-            let r = if op == 0 { f.assign_local_register(cid(id)) } else { f.reserve_local_register(cid(id)) };
-            match (r, at) {
-                (Ok(r), Some((pos, kind))) => {
-                    assert!(r as usize == pos && f.local_registers.len() == len0, "C05.frame: a known id keeps its register");
-                    let want_assigned = kind == 0 || op == 0;
-                    assert!(matches!(&f.local_registers[pos], LocalRegister::Assigned(x) if *x == cid(id)) == want_assigned, "C05.frame: assigning commits a reservation, reserving keeps the state");
-                }
-                (Ok(r), None) => {
-                    assert!(r as usize == len0 && f.local_registers.len() == len0 + 1, "C05.frame: a new local takes the next local register");
-                    assert!((r as usize) < pre.tb as usize, "C05.frame: a local register is always below the temporaries");
-                }
-                (Err(FrameError::LocalRegisterOverflow), None) => {
-                    assert!(len0 >= pre.tb as usize, "C05.frame: LocalRegisterOverflow only when the locals are exhausted");
-                }
-                (Err(_), _) => assert!(false, "C05.frame: no other error for assign/reserve"),
-            }
-            assert!(owner_count(&f, id) == 1, "C05.frame: an id owns exactly one register");
-        }
-        _ => {
-            let reg: u8 = kani::any();
-            kani::assume(reg < 6);
-            let r = f.commit_local_register(reg);
-            let kind = if reg == 0 || reg as usize >= len0 { 2 } else { pre.kinds[reg as usize - 1] };
-            match r {
-                Ok(ops) => {
-                    assert!(kind != 2 && (reg as usize) < len0, "C05.frame: only named locals can be committed");
-                    assert!(matches!(&f.local_registers[reg as usize], LocalRegister::Assigned(_)), "C05.frame: a committed register is assigned");
-                    std::mem::forget(ops);
-                }
-                Err(FrameError::UnreservedRegister(x)) => assert!(x == reg && (kind == 2 || reg as usize >= len0), "C05.frame: committing an unnamed or missing register is an error"),
-                Err(_) => assert!(false, "C05.frame: no other error for commit"),
-            }
-            assert!(f.local_registers.len() == len0, "C05.frame: commit does not add registers");
-        }
-    }
-    assert!(f.temporary_base == pre.tb && f.temporary_count == pre.count && invariant(&f), "C05.frame: locals never touch the temporaries");
-    kani::cover!(op == 0 && at.is_none() && len0 == pre.tb as usize, "assign when the locals are exhausted");
-    kani::cover!(op == 0 && matches!(at, Some((_, 1))), "assign commits a reserved register");
-    kani::cover!(op == 1 && at.is_none() && len0 < pre.tb as usize, "reserve a fresh register");
-    std::mem::forget(f);
-}
-
-fn frame_new_case(nargs: usize, ncaps: usize) {
+// kinds: 0 Local, 1 Unpacked, 2 Placeholder - concrete per case (see any_frame_with for why)
+fn frame_new_case(nargs: usize, ncaps: usize, kinds: [u8; 3]) {
     let local_count: u8 = kani::any();
-    let mut kinds = [0u8; 3];
-    let mut i = 0;
-    while i < 3 {
-        let k: u8 = kani::any();
-        kani::assume(k < 3);
-        kinds[i] = k;
-        i += 1;
-    }
     let mk = |i: usize| match kinds[i] {
         0 => Arg::Local(cid(10 + i as u32)),
         1 => Arg::Unpacked(cid(10 + i as u32)),
@@ -345,7 +281,7 @@ fn frame_new_case(nargs: usize, ncaps: usize) {
 
 // @props C05 C06
 // @fns Frame::new
-// @bound any local_count (u8); (args, captures) counts (0,0), (1,3), (3,2) and (3,3) with every mix of arg kinds (Local / Unpacked / Placeholder): every sum 1..=262 is reached. Slice lengths are concrete per block (symbolic lengths: out of memory at 30 GB)
+// @bound any local_count (u8); six concrete argument lists ([], [P]+3 captures, [L,P], [L,U,P]+2, [P,P,P]+3, [U,L,U]+3; L local, U unpacked, P placeholder): every sum 1..=262 is reached; the register layout is checked for these orders
 // @assume local_count >= number of named args (the parser counts args as locals)
 // @kani --no-memory-safety-checks --no-assertion-reach-checks
 // @mem 10
@@ -354,10 +290,12 @@ fn frame_new_case(nargs: usize, ncaps: usize) {
 #[kani::unwind(6)]
 #[kani::stub(std::hash::RandomState::new, stub_random_state)]
 fn c05_frame_new() {
-    frame_new_case(0, 0);
-    frame_new_case(1, 3);
-    frame_new_case(3, 2);
-    frame_new_case(3, 3);
+    frame_new_case(0, 0, [0, 0, 0]);
+    frame_new_case(1, 3, [2, 0, 0]);
+    frame_new_case(2, 0, [0, 2, 0]);
+    frame_new_case(3, 2, [0, 1, 2]);
+    frame_new_case(3, 3, [2, 2, 2]);
+    frame_new_case(3, 3, [1, 0, 1]);
 }
 
 fn unpacked_before(kinds: &[u8; 3], a: usize, nargs: usize) -> usize {
